@@ -1,4 +1,5 @@
 import PolyVerif.Base.Proto
+import PolyVerif.Spec.Rotation
 /-
 Independent spec of IUPAC nucleotide codes: each code is a SET of bases
 (written here as a Boolean 4-tuple membership function, a different shape from the
@@ -74,12 +75,20 @@ def reads (s w : Str) : Bool :=
 /-- number of concrete readings -/
 def readingCount (s : Str) : Nat := (s.map fun c => (basesOf c).length).foldl (· * ·) 1
 
-/-- no two equal entries: sort, then compare neighbours (n log n; expansions can have 10^5 entries) -/
-def allDistinct (got : List Str) : Bool :=
-  let a := (got.map String.ofList).toArray.qsort (· < ·)
-  (List.range (a.size - 1)).all fun i => a[i]! != a[i + 1]!
+/-- no two ADJACENT entries are equal -/
+def adjDistinct : List Str → Bool
+  | a :: b :: rest => a != b && adjDistinct (b :: rest)
+  | _ => true
 
-/-- `got` is exactly the set of readings of `s`, each once. -/
+/-- no two equal entries: merge sort by the byte-lexicographic order `lexLe` (a total order, proved
+in Lemmas/RotationSpec), then compare neighbours.  n log n: expansions can have 10^6 entries.
+`Lemmas/Expansion.allDistinct_iff_nodup` proves `allDistinct l = true ↔ l.Nodup` from core's
+`List.pairwise_mergeSort` / `List.mergeSort_perm`. -/
+def allDistinct (got : List Str) : Bool := adjDistinct (got.mergeSort lexLe)
+
+/-- `got` is exactly the set of readings of `s`, each once: every entry is a reading, no entry is
+repeated, and there are as many entries as readings (`Props.C11.isExpansion_iff` proves this equivalent
+to `got.Nodup ∧ ∀ w, w ∈ got ↔ Reads s w`, the statement of `variants_exact`). -/
 def isExpansion (s : Str) (got : List Str) : Bool :=
   got.all (reads s) && allDistinct got && got.length == readingCount s
 
